@@ -1,9 +1,10 @@
 #!/bin/bash
 # try_mutant.sh <patch.diff> <check-id>...: apply a seeded change to /repo's working tree, run the named quick
-# checks, restore /repo. Prints one line per check: <id> exit=<code> + first VIOLATION lines.
+# checks, take the change out again. Refuses to touch a dirty tree (uncommitted work would be lost otherwise).
 set -u
 PATCH=$1; shift
 cd /verif
+if [ -n "$(git -C /repo status --porcelain)" ]; then echo "REFUSED: /repo has uncommitted changes"; exit 2; fi
 git -C /repo apply "$PATCH" || { echo "patch does not apply"; exit 2; }
 for c in "$@"; do
   out=$(./check $c --tier ${TIER:-quick} 2>&1); rc=$?
@@ -11,5 +12,5 @@ for c in "$@"; do
   echo "$out" | grep -A2 '^VIOLATION' | cut -c1-400 | head -12
   echo "$out" | grep '^INCONCLUSIVE' | head -2
 done
-git -C /repo checkout -- .
+git -C /repo apply -R "$PATCH"
 git -C /repo status --short | head -3
